@@ -65,12 +65,33 @@ def plan(tier, seed):
             for c in range(chunks):
                 jobs.append(("allele", name, H, seed, 1, c, chunks, ns * ped.n // chunks))
                 jobs.append(("swap", name, H, seed, 1, c, chunks, ns * 4 // chunks))
+    from ..handoff import PEDS
+
+    for name in PEDS:
+        for part in ("sampler", "compound", "allele"):
+            jobs.append(("orch", part, name, 2000))
+    jobs.append(("orch", "fit", "-", 100))
     jobs.sort(key=lambda j: -j[-1])
     return jobs
 
 
 def run_job(job):
-    return {"allele": job_allele, "swap": job_swap}[job[0]](job)
+    return {"allele": job_allele, "swap": job_swap, "orch": job_orch}[job[0]](job)
+
+
+def job_orch(job):
+    """hand-off chain fit -> mcmc_sampler -> compound_step -> sample_step -> allele_step -> kernel (vmc/handoff.py)"""
+    from .. import handoff
+
+    _, part, name, _ = job
+    r = Result()
+    payload = {"kind": "job", "job": job}
+    if part == "fit":
+        handoff.ped_fit(r, payload)
+    else:
+        {"sampler": handoff.ped_sampler, "compound": handoff.ped_compound, "allele": handoff.ped_allele}[part](r, payload, name)
+    r.sample({"orchestration": part, "pedigree": name}, cap=1)
+    return r
 
 
 def job_allele(job):
